@@ -1,10 +1,525 @@
-"""C10 helper: documents with relations / objectives / index locations (python reference only). Stub, filled in later."""
+"""C10 helper (owned by C10): documents that also carry relations / objectives / job values / task orders / index locations and
+routing matrices.  These parts are NOT in the Coq model; the reference below is a python transcription of
+validation/{relations,objectives,routing}.rs AS WRITTEN, the job / vehicle / profile rules come from the documented-rule copy in
+c10.py (the base document is valid and outside every known class, so both coincide there).
+
+Observations on these groups (code vs documentation page), adopted by the reference and NOT reported as violations:
+  * E1203 is applied to relations of every type (the page says "strict or sequence relation");
+  * E1605 is only evaluated when `objectives` is present;
+  * E1603 / E1604 / E1606 / E1607 look at top-level objectives only, E1601 / E1602 also inside a multi-objective;
+  * E1504 requires equality of the number of distinct locations and the matrix dimension (the page: "greater/higher than");
+    `max location index` is really "number of distinct locations - 1".
+The generator keeps away from inputs whose post-validation behaviour it cannot predict (special ids `break`/`reload` in a relation
+only when no such conditional job list exists, dense location indices, one matrix per profile)."""
+import copy, json
+
+COST = ('minimize-cost', 'minimize-distance', 'minimize-duration')
+RESERVED = ('departure', 'arrival', 'break', 'reload')
+
+
+# ------------------------------------------------------------------ reference (as written)
+def job_tasks(j):
+    return (j['pickups'] or []) + (j['deliveries'] or []) + (j['replacements'] or []) + (j['services'] or [])
+
+
+def ref_objectives(d):
+    objs = d.get('objectives')
+    if objs is None:
+        return []
+    out = []
+    flat = []
+    for o in objs:
+        flat += o['objectives'] if o['type'] == 'multi-objective' else [o]
+    jobs = d['jobs']
+    if not objs:
+        out.append(1600)
+    if len(set(o['type'] for o in flat)) != len(flat):
+        out.append(1601)
+    if not any(o['type'] in COST for o in flat):
+        out.append(1602)
+    has_value = any((j.get('value') or 0) > 0 for j in jobs)
+    if any(o['type'] == 'maximize-value' for o in objs) and not has_value:
+        out.append(1603)
+    has_order = any((t.get('order') or 0) > 0 for j in jobs for t in job_tasks(j))
+    if any(o['type'] == 'tour-order' for o in objs) and not has_order:
+        out.append(1604)
+    if any(any(t.get('order') is not None and t['order'] < 1 for t in job_tasks(j))
+           or (j.get('value') is not None and j['value'] < 1) for j in jobs):
+        out.append(1605)
+    if sum(1 for o in objs if o['type'] in COST) > 1:
+        out.append(1606)
+    if objs and not any(o['type'] == 'maximize-value' for o in objs) and has_value:
+        out.append(1607)
+    return out
+
+
+def ref_relations(d):
+    rels = d.get('relations')
+    if rels is None:
+        return []
+    out = []
+    job_index = {j['id']: j for j in d['jobs']}
+    vmap = {}
+    for v in d['vehicles']:
+        for i in v['vehicle_ids']:
+            vmap[i] = v
+    if any(i not in RESERVED and i not in job_index for r in rels for i in r['jobs']):
+        out.append(1200)
+    if any(r['vehicle_id'] not in vmap for r in rels):
+        out.append(1201)
+    if any(not any(i not in RESERVED for i in r['jobs']) for r in rels):
+        out.append(1202)
+    if any(i not in RESERVED and i in job_index and any(len(t['places']) > 1 or any(p['times'] is not None and len(p['times']) > 1
+                                                                                   for p in t['places'])
+                                                        for t in job_tasks(job_index[i])) for r in rels for i in r['jobs']):
+        out.append(1203)
+    seen, bad = {}, False
+    for r in rels:
+        for i in r['jobs']:
+            if i in RESERVED:
+                continue
+            if seen.setdefault(i, r['vehicle_id']) != r['vehicle_id']:
+                bad = True
+    if bad:
+        out.append(1204)
+    if any(r['vehicle_id'] in vmap and (r['shift_index'] or 0) >= len(vmap[r['vehicle_id']]['shifts']) for r in rels):
+        out.append(1205)
+    e1206 = False
+    for r in rels:
+        v = vmap.get(r['vehicle_id'])
+        if v is None or (r['shift_index'] or 0) >= len(v['shifts']):
+            continue
+        s = v['shifts'][r['shift_index'] or 0]
+        for i in r['jobs']:
+            if (i == 'break' and s['breaks'] is None) or (i == 'reload' and s['reloads'] is None) or (i == 'arrival' and s['end'] is None):
+                e1206 = True
+    if e1206:
+        out.append(1206)
+    if any(i in job_index and r['jobs'].count(i) != len(job_tasks(job_index[i])) for r in rels for i in r['jobs']):
+        out.append(1207)
+    return out
+
+
+def locations(d):
+    """location descriptors in CoordIndex::new order; each is ('c', k) or ('i', index)"""
+    return d['_locs']
+
+
+def ref_routing(d, base_codes):
+    """E15xx for a document with explicit location modes / matrices; base_codes already holds E1500/1501/1505 (from c10.py_spec)"""
+    out = [c for c in base_codes if c in (1500, 1501, 1505)]
+    locs = d['_locs']
+    locs = [tuple(l) for l in locs]
+    has_c = any(l[0] == 'c' for l in locs)
+    has_i = any(l[0] == 'i' for l in locs)
+    ms = d.get('matrices')
+    if has_c and has_i:
+        out.append(1502)
+    if has_i and not ms:
+        out.append(1503)
+    if ms:
+        n = len(set(tuple(l) for l in locs))
+        size = int(round(len(ms[0]['distances']) ** 0.5))
+        if max(n, 1) != size:
+            out.append(1504)
+    return out
+
+
+# ------------------------------------------------------------------ generation
+def simple_job(j):
+    return all(len(t['places']) == 1 and all(p['times'] is None or len(p['times']) <= 1 for p in t['places']) for t in job_tasks(j))
 
 
 def gen_full_case(rng, mk_doc, to_json):
     from props import c10
-    return c10.gen_doc_case(rng)
+    for _ in range(100):
+        d = mk_doc(rng)
+        if not c10.py_spec(d) and not c10.py_known(d) and all(v['vehicle_ids'] for v in d['vehicles']):
+            break
+    labels = []
+    d['relations'] = None
+    d['objectives'] = None
+    d['matrices'] = None
+    d['loc_mode'] = 'coord'
+    area = rng.below(100)
+    if area < 50:
+        labels += gen_relations(rng, d)
+    elif area < 85:
+        labels += gen_objectives(rng, d)
+    else:
+        labels += gen_routing(rng, d)
+    problem = full_json(d, to_json)
+    return {'op': 'full', 'doc': d, 'labels': labels, 'problem': problem, 'matrices': d['matrices']}
+
+
+def valid_relation(rng, d, vehicle_id=None, jobs=None):
+    vs = [v for v in d['vehicles'] if v['vehicle_ids']]
+    v = rng.choice(vs)
+    vid = vehicle_id or rng.choice(v['vehicle_ids'])
+    cands = [j for j in d['jobs'] if simple_job(j)]
+    js = jobs if jobs is not None else ([rng.choice(cands)] if cands else [])
+    ids = []
+    for j in js:
+        ids += [j['id']] * len(job_tasks(j))
+    si = rng.choice([None, 0, len(v['shifts']) - 1])
+    s = v['shifts'][si or 0]
+    if rng.chance(1, 3):
+        ids = ['departure'] + ids
+    if s['end'] is not None and rng.chance(1, 4):
+        ids = ids + ['arrival']
+    return {'type': rng.choice(['any', 'sequence', 'strict']), 'jobs': ids, 'vehicle_id': vid, 'shift_index': si}, v
+
+
+def simplify(j):
+    for t in job_tasks(j):
+        t['places'] = t['places'][:1]
+        for p in t['places']:
+            if p['times'] is not None:
+                p['times'] = p['times'][:1]
+
+
+def gen_relations(rng, d):
+    if not any(simple_job(j) for j in d['jobs']) or rng.chance(1, 2):
+        simplify(rng.choice(d['jobs']))
+    r, v = valid_relation(rng, d)
+    if not r['jobs'] or all(i in RESERVED for i in r['jobs']):
+        d['relations'] = [r]
+        return ['rel-no-simple-job']
+    d['relations'] = [r]
+    k = rng.below(16)
+    if k <= 2:
+        return ['rel-valid']
+    if k == 3:
+        r['jobs'] = r['jobs'] + [rng.choice(['nojob', 'recharge', 'Departure'])]
+        return ['rel-unknown-job']
+    if k == 4:
+        r['vehicle_id'] = rng.choice(['nov', v['type_id']])
+        return ['rel-unknown-vehicle']
+    if k == 5:
+        r['jobs'] = rng.choice([[], ['departure'], ['departure', 'arrival']])
+        return ['rel-empty-or-reserved-only']
+    if k == 6:
+        j = rng.choice(d['jobs'])
+        t = job_tasks(j)[0]
+        if rng.chance(1, 2):
+            t['places'] = t['places'][:1] + [copy.deepcopy(t['places'][0])]
+        else:
+            T = c10_T()
+            t['places'][0]['times'] = [[T(1), T(2)], [T(3), T(4)]]
+        r['jobs'] = [j['id']] * len(job_tasks(j))
+        r['type'] = rng.choice(['any', 'any', 'sequence', 'strict'])
+        return ['rel-multi-place-or-window-job-type-' + r['type']]
+    if k == 7:
+        ids = [i for vv in d['vehicles'] for i in vv['vehicle_ids']]
+        others = [i for i in ids if i != r['vehicle_id']]
+        r2 = copy.deepcopy(r)
+        r2['jobs'] = [i for i in r['jobs'] if i not in RESERVED]
+        r2['shift_index'] = None
+        if others and rng.chance(2, 3):
+            r2['vehicle_id'] = rng.choice(others)
+            lab = 'rel-job-on-two-vehicles'
+        else:
+            lab = 'rel-job-twice-same-vehicle'
+        d['relations'].append(r2)
+        return [lab]
+    if k == 8:
+        r['shift_index'] = len(v['shifts']) + rng.choice([0, 1])
+        return ['rel-shift-index-too-big']
+    if k == 9:
+        s = v['shifts'][r['shift_index'] or 0]
+        opts = [x for x, f in (('break', 'breaks'), ('reload', 'reloads'), ('arrival', 'end')) if s[f] is None]
+        if not opts:
+            return ['rel-valid']
+        r['jobs'] = [i for i in r['jobs'] if i != 'arrival'] + [rng.choice(opts)]
+        return ['rel-special-id-without-shift-property']
+    if k == 10:
+        js = [j for j in d['jobs'] if len(job_tasks(j)) >= 2 and simple_job(j)]
+        if not js:
+            j = d['jobs'][0]
+            t = {'places': [{'duration': 60, 'times': None}], 'demand': [1] * d['ndim']}
+            j['pickups'], j['deliveries'], j['replacements'], j['services'] = [t], [copy.deepcopy(t)], None, None
+            js = [j]
+        j = rng.choice(js)
+        r['jobs'] = [j['id']] * (len(job_tasks(j)) - 1)
+        return ['rel-incomplete-job']
+    if k == 11:
+        base = [i for i in r['jobs'] if i not in RESERVED]
+        r['jobs'] = r['jobs'] + [base[0]]
+        return ['rel-job-id-too-often']
+    if k == 12:
+        d['relations'] = []
+        return ['rel-empty-list']
+    if k == 13:
+        # an optional time-window break exists: the conditional job `<vid>_break_<shift>_1` exists, `break` is legal
+        s = v['shifts'][r['shift_index'] or 0]
+        if s['breaks'] and s['breaks'][0][0] == 'otw' and len(s['breaks']) == 1:
+            r['jobs'] = [i for i in r['jobs'] if i != 'arrival'] + ['break']
+            return ['rel-break-with-optional-break']
+        return ['rel-valid']
+    if k == 14:
+        # second relation for another job on the same vehicle: fine
+        cands = [j for j in d['jobs'] if simple_job(j) and j['id'] not in r['jobs']]
+        if cands:
+            r2, _ = valid_relation(rng, d, vehicle_id=r['vehicle_id'], jobs=[rng.choice(cands)])
+            r2['shift_index'] = r['shift_index']
+            r2['jobs'] = [i for i in r2['jobs'] if i not in RESERVED]
+            d['relations'].append(r2)
+            return ['rel-two-relations-valid']
+        return ['rel-valid']
+    d['jobs'][0]['id'] = 'arrival'
+    return ['rel-with-reserved-job-id-in-plan']
+
+
+def c10_T():
+    from props import c10
+    return lambda h: c10.T(h * c10.H)
+
+
+def gen_objectives(rng, d):
+    base = [{'type': 'minimize-unassigned'}, {'type': 'minimize-tours'}, {'type': 'minimize-cost'}]
+    k = rng.below(18)
+    d['objectives'] = base
+    if k <= 1:
+        return ['obj-default-like']
+    if k == 2:
+        d['objectives'] = []
+        return ['obj-empty']
+    if k == 3:
+        d['objectives'] = base + [{'type': rng.choice(['minimize-unassigned', 'minimize-tours'])}]
+        return ['obj-duplicate']
+    if k == 4:
+        d['objectives'] = base[:2] + ([{'type': 'balance-distance'}] if rng.chance(1, 2) else [])
+        return ['obj-no-cost']
+    if k == 5:
+        d['objectives'] = base + [{'type': rng.choice(['minimize-distance', 'minimize-duration'])}]
+        return ['obj-two-costs']
+    if k == 6:
+        d['objectives'] = [{'type': 'minimize-unassigned'},
+                           {'type': 'multi-objective', 'strategy': {'name': 'sum'},
+                            'objectives': [{'type': 'minimize-cost'}, {'type': rng.choice(['minimize-distance', 'minimize-tours'])}]}]
+        return ['obj-costs-inside-multi']
+    if k == 7:
+        d['objectives'] = [{'type': 'minimize-cost'},
+                           {'type': 'multi-objective', 'strategy': {'name': 'sum'},
+                            'objectives': [{'type': 'minimize-cost'}, {'type': 'minimize-tours'}]}]
+        return ['obj-duplicate-across-multi']
+    if k == 8:
+        d['objectives'] = [{'type': 'maximize-value'}] + base
+        return ['obj-value-objective-without-values']
+    if k == 9:
+        d['objectives'] = [{'type': 'maximize-value'}] + base
+        d['jobs'][0]['value'] = rng.choice([1, 5, 0, -1, 0.5])
+        return ['obj-value-objective-with-value-%s' % d['jobs'][0]['value']]
+    if k == 10:
+        d['jobs'][0]['value'] = rng.choice([1, 3, 0, -2, 0.5])
+        return ['obj-value-without-value-objective-%s' % d['jobs'][0]['value']]
+    if k == 11:
+        d['objectives'] = None
+        d['jobs'][0]['value'] = rng.choice([1, 3, 0, 0.5])
+        return ['no-objectives-job-value-%s' % d['jobs'][0]['value']]
+    if k == 12:
+        d['objectives'] = base[:2] + [{'type': 'tour-order'}, base[2]]
+        return ['obj-tour-order-without-orders']
+    if k == 13:
+        d['objectives'] = base[:2] + [{'type': 'tour-order'}, base[2]]
+        job_tasks(d['jobs'][0])[0]['order'] = rng.choice([1, 2, 0, -1])
+        return ['obj-tour-order-with-order-%d' % job_tasks(d['jobs'][0])[0]['order']]
+    if k == 14:
+        job_tasks(d['jobs'][0])[0]['order'] = rng.choice([1, 0, -3])
+        return ['obj-order-without-order-objective-%d' % job_tasks(d['jobs'][0])[0]['order']]
+    if k == 15:
+        d['objectives'] = None
+        job_tasks(d['jobs'][0])[0]['order'] = rng.choice([1, 0, -3])
+        return ['no-objectives-order-%d' % job_tasks(d['jobs'][0])[0]['order']]
+    if k == 16:
+        d['objectives'] = [{'type': 'multi-objective', 'strategy': {'name': 'sum'},
+                            'objectives': [{'type': 'maximize-value'}, {'type': 'minimize-unassigned'}]}, {'type': 'minimize-cost'}]
+        d['jobs'][0]['value'] = 2
+        return ['obj-value-objective-inside-multi']
+    d['objectives'] = [{'type': 'minimize-unassigned'}, {'type': 'minimize-cost'}, {'type': 'minimize-cost'}]
+    return ['obj-same-cost-twice']
+
+
+def gen_routing(rng, d):
+    k = rng.below(9)
+    n_loc = count_locations(d)
+    profs = []
+    for p in d['profiles']:
+        if p not in profs:
+            profs.append(p)
+
+    def matrices(size):
+        return [{'profile': p, 'travelTimes': [1] * (size * size), 'distances': [1] * (size * size)} for p in profs]
+    if k == 0:
+        d['loc_mode'] = 'index'
+        d['matrices'] = matrices(n_loc)
+        return ['routing-indices-with-matrix']
+    if k == 1:
+        d['loc_mode'] = 'index'
+        d['matrices'] = rng.choice([None, []])
+        return ['routing-indices-without-matrix']
+    if k == 2:
+        d['loc_mode'] = 'mixed'
+        d['matrices'] = matrices(n_loc)
+        return ['routing-mixed-locations']
+    if k == 3:
+        d['loc_mode'] = 'index'
+        d['matrices'] = matrices(n_loc + rng.choice([1, -1, 2]))
+        return ['routing-indices-matrix-size-off']
+    if k == 4:
+        d['matrices'] = matrices(n_loc)
+        return ['routing-coordinates-with-matrix']
+    if k == 5:
+        d['matrices'] = matrices(n_loc + rng.choice([1, -1]))
+        return ['routing-coordinates-matrix-size-off']
+    if k == 6:
+        d['loc_mode'] = 'index-shared'          # two places share one index: fewer distinct locations
+        d['matrices'] = matrices(n_loc - 1)
+        return ['routing-shared-index']
+    if k == 7:
+        d['matrices'] = matrices(n_loc)
+        d['profiles'] = []
+        d['vehicles'][0]['profile'] = 'car'
+        return ['routing-matrix-but-no-profiles']
+    d['matrices'] = matrices(n_loc)
+    d['profiles'] = d['profiles'] + [d['profiles'][0]]
+    return ['routing-matrix-duplicate-profile']
+
+
+def count_locations(d):
+    n = sum(len(t['places']) for j in d['jobs'] for t in job_tasks(j))
+    for v in d['vehicles']:
+        for s in v['shifts']:
+            n += 1 + (1 if s['end'] is not None else 0) + len(s['reloads'] or [])
+    return n
+
+
+def full_json(d, to_json):
+    p = to_json(d)
+    # locations: to_json numbers them 1..n in CoordIndex::new order (jobs first, then shifts: start, end, reloads)
+    mode = d['loc_mode']
+    locs = []
+
+    def conv(loc):
+        k = int(loc['lat']) - 1
+        if mode == 'coord':
+            locs.append(('c', k))
+            return loc
+        if mode == 'index':
+            locs.append(('i', k))
+            return {'index': k}
+        if mode == 'index-shared':
+            kk = max(k - 1, 0)
+            locs.append(('i', kk))
+            return {'index': kk}
+        if k % 2 == 0:
+            locs.append(('c', k))
+            return loc
+        locs.append(('i', k))
+        return {'index': k}
+    for j in p['plan']['jobs']:
+        for kind in ('pickups', 'deliveries', 'replacements', 'services'):
+            for t in j.get(kind) or []:
+                for pl in t['places']:
+                    pl['location'] = conv(pl['location'])
+    for v in p['fleet']['vehicles']:
+        for s in v['shifts']:
+            s['start']['location'] = conv(s['start']['location'])
+            if 'end' in s:
+                s['end']['location'] = conv(s['end']['location'])
+            for r in s.get('reloads') or []:
+                r['location'] = conv(r['location'])
+    d['_locs'] = locs
+    if d.get('relations') is not None:
+        p['plan']['relations'] = [dict({'type': r['type'], 'jobs': r['jobs'], 'vehicleId': r['vehicle_id']},
+                                       **({'shiftIndex': r['shift_index']} if r['shift_index'] is not None else {}))
+                                  for r in d['relations']]
+    if d.get('objectives') is not None:
+        p['objectives'] = d['objectives']
+    return p
+
+
+# ------------------------------------------------------------------ structural causes of crashes outside the Coq-modelled fragment
+def crash_causes(problem, matrices):
+    """known crash classes, decided on the JSON document itself"""
+    out = []
+    fleet, plan = problem.get('fleet', {}), problem.get('plan', {})
+    # relation naming `break` / `reload` / `recharge` more often than the shift has conditional jobs of that kind
+    vmap = {}
+    for v in fleet.get('vehicles', []):
+        for i in v.get('vehicleIds', []):
+            vmap[i] = v
+    for r in plan.get('relations') or []:
+        v = vmap.get(r.get('vehicleId'))
+        si = r.get('shiftIndex') or 0
+        if v is None or si >= len(v.get('shifts', [])):
+            continue
+        s = v['shifts'][si]
+        have = {'break': sum(1 for b in s.get('breaks') or [] if 'places' in b), 'reload': len(s.get('reloads') or []),
+                'recharge': len((s.get('recharges') or {}).get('stations', []))}
+        if any(r['jobs'].count(k) > n for k, n in have.items()):
+            out.append('relation-special-id-without-conditional-job-panics-in-read-locks')
+            break
+    # location index that is not below the number of distinct locations
+    locs = []
+
+    def walk(o):
+        if isinstance(o, dict):
+            if 'location' in o and isinstance(o['location'], dict):
+                locs.append(json.dumps(o['location'], sort_keys=True))
+            for x in o.values():
+                walk(x)
+        elif isinstance(o, list):
+            for x in o:
+                walk(x)
+    walk(problem)
+    n = len(set(locs))
+    if any('index' in json.loads(l) and json.loads(l)['index'] >= n for l in set(locs)):
+        out.append('location-index-not-below-number-of-distinct-locations-panics-in-jobs-index')
+    if any(m.get('timestamp') is not None and not str(m['timestamp'])[:4].isdigit() for m in matrices or []):
+        out.append('matrix-timestamp-unparsable-panics-in-transport-costs')
+    if not matrices and any(p.get('speed') is not None and p['speed'] <= 0 for p in fleet.get('profiles', [])):
+        out.append('profile-speed-not-positive-panics-before-validation')
+    return out
+
+
+# ------------------------------------------------------------------ oracle
+def reference(d):
+    from props import c10
+    base = c10.py_spec(d)
+    if d.get('matrices') is not None or d['loc_mode'] != 'coord':
+        base = [c for c in base if not 1500 <= c < 1600] + ref_routing(d, base)
+    return sorted(set(base + ref_objectives(d) + ref_relations(d)))
 
 
 def oracle(c, impl):
-    return []
+    from props import c10
+    d = c['doc']
+    ref = reference(d)
+    out = []
+    v, rd = impl['validate'], impl['read']
+    lab = '/'.join(c.get('labels', []))
+    if v['k'] == 'panic':
+        out.append({'class': 'validation-panics:' + lab, 'what': v['msg'][:300]})
+    elif v['k'] == 'deser':
+        out.append({'class': 'generator-produced-undeserialisable-document:' + lab, 'what': str(rd)[:300]})
+    else:
+        got = c10.codes_of(v) if v['k'] == 'err' else []
+        if got != ref:
+            out.append({'class': 'validation-codes-differ-from-reference:missing=%s:extra=%s' % ([x for x in ref if x not in got], [x for x in got if x not in ref]),
+                        'what': 'validate reported %s, reference (rules as documented / as transcribed) %s; %s' % (got, ref, lab)})
+    if rd['k'] == 'panic':
+        causes = crash_causes(c['problem'], c.get('matrices'))
+        out = [o for o in out if not (causes and o['class'].startswith('validation-panics'))]
+        out.append({'class': '+'.join(causes) if causes else 'read-panics-unexplained:' + lab, 'what': rd['msg'][:300]})
+    elif ref:
+        got = c10.codes_of(rd) if rd['k'] == 'err' else []
+        if got != ref and v['k'] != 'panic':
+            out.append({'class': 'read-codes-differ-from-reference:' + lab, 'what': 'read reported %s, reference %s' % (got, ref)})
+    elif rd['k'] == 'err':
+        got = c10.codes_of(rd)
+        if any(x >= 1000 for x in got):
+            out.append({'class': 'read-reports-validation-code-not-in-reference:' + lab, 'what': str(got)})
+        elif got != [2]:
+            out.append({'class': 'valid-document-rejected-with-generic-code:%s:%s' % (got, lab), 'what': str(rd.get('causes'))[:300]})
+    return out
